@@ -21,6 +21,7 @@ type GenItem struct {
 	Exit    int      `json:"exit"`
 	Files   int      `json:"files"`
 	Illegal bool     `json:"illegal,omitempty"`
+	NoRun   bool     `json:"no_run,omitempty"` // verdict only: not linked into the probe
 	CType   string   `json:"ctype"`
 	CCtor   string   `json:"cctor"`
 }
@@ -39,7 +40,10 @@ func optsFor(prop string, src *choice.Src) gen.Opts {
 	case "C20":
 		return gen.Opts{Runnable: true, MaxParams: 4, MaxSvcs: 6, MaxDecs: 2, NoTodo: true, OnlyPtr: true, LegalOnly: true}
 	}
-	return gen.Opts{Runnable: true, MaxParams: 3, MaxSvcs: 6, MaxDecs: 2, NoTodo: true, OnlyPtr: true, LegalOnly: src.Chance("legalonly", 1, 2)}
+	legal := src.Chance("legalonly", 1, 2)
+	// todo placeholders with a declared scope take part in the legality rule; configurations that
+	// contain one are only judged on their verdict (a todo service cannot be instantiated)
+	return gen.Opts{Runnable: true, MaxParams: 3, MaxSvcs: 6, MaxDecs: 2, NoTodo: legal || src.Chance("notodo", 2, 3), TodoScoped: true, NoTodoParams: true, OnlyPtr: true, LegalOnly: legal}
 }
 
 // CfgWorld renders a configuration into a world (1-3 files, literal patterns).
@@ -243,8 +247,15 @@ func GenBatch(t Target, prop string, seed uint64, n int, outdir string, nenum in
 		}
 		it := GenItem{Name: name, Cfg: cfg, Exit: r.Exit, Files: len(w.Files), Illegal: len(gen.ScopeViolations(cfg)) > 0,
 			CType: deref(cfg.Meta.CType, "Gontainer"), CCtor: deref(cfg.Meta.CCtor, "NewGontainer")}
+		if prop != "C15" {
+			for _, sv := range cfg.Services {
+				if sv.Todo {
+					it.NoRun = true
+				}
+			}
+		}
 		out.Items = append(out.Items, it)
-		if r.Exit == 0 && r.Out.Exists {
+		if r.Exit == 0 && r.Out.Exists && !it.NoRun {
 			dir := filepath.Join(outdir, name)
 			_ = os.MkdirAll(dir, 0755)
 			_ = os.WriteFile(filepath.Join(dir, "container.go"), []byte(r.Out.Data), 0644)
